@@ -89,7 +89,7 @@ class MemFS:
 class C19(Check):
     ID = 'C19'
     LEVEL = 'exploration'
-    BUDGET = {'quick': 30, 'thorough': 300}
+    BUDGET = {'quick': 30, 'thorough': 240}
     RULE = ('case = (object list spec: count, string alphabet (plain / JSON-special incl. \\n \\r " \\\\ NUL U+2028 / Latin-1 / BMP / astral), '
             'max string length, padding 0..3 so chunk boundaries hit every offset mod 4, data seed; compression None/gzip/zstd; '
             'transport: dump|load operators on a stream, re-framed stream, file path, file object, custom open_obj in-memory FS). '
@@ -111,7 +111,7 @@ class C19(Check):
         return self.tmp
 
     def generate(self, rng, tier, shard, nshards):
-        n = 260 if tier == 'quick' else 1500
+        n = 260 if tier == 'quick' else 10 ** 7
         comps = [None, 'gzip', 'zstd']
         modes = ['stream', 'reframed', 'path', 'fileobj', 'open_obj', 'whole']
         for k in range(n):
